@@ -3,7 +3,8 @@ SPEC = {
     "level": "proof",
     "lean_modules": ["PallasVerif.Props.C15"],
     "required_theorems": ["E_eq", "exp_zero", "exp_neg_is_recip", "iterations_le_cap", "ln_fails_iff_nonpos", "ln_panics_of_nonpos",
-                          "pow_special_cases", "findE_brackets_partial", "taylor_lower_partial", "exp_lower_partial"],
+                          "pow_special_cases", "findE_brackets_partial", "taylor_lower_partial", "exp_lower_partial",
+                          "exp_two_sided_unit_partial", "within_error_bound_unit_partial"],
     "streams": [{"name": "refmath", "quick": 800, "thorough": 40000}],
     "rule": "cases of 2..8 ops `exp x` / `ln x` / `pow x y` on stored integers at precision 34. Positive values: 1, e +-2 ulp, "
             "e^k +-1 ulp (k 2..12), 1 +- <500 ulp, 0.9 (= 1 - f), k/100, integers < 1000, exact powers of ten 1e-30..1e6, random "
@@ -18,8 +19,10 @@ SPEC = {
                      "(independent of dashu and of the model); tolerances are empirical, stated in refmath.rs (exp: 1e-23 relative per "
                      "unit of the scaling exponent; ln: 2e-24 absolute per unit of |ln x| + 1, plus 8 ulp / x; pow: propagated)",
                      "Mathlib: Real.exp, Real.sum_le_exp_of_nonneg, Real.exp_nat_mul"],
-    "assumptions": ["the two-sided 'within the reference's error bound of the true value' clause is NOT proved (WithinErrorBoundFull "
-                    "stays a visible definition); only the one-sided exp_lower_partial is; the rest is sampled",
+    "assumptions": ["the two-sided 'within the reference's error bound of the true value' clause is proved only for exp on "
+                    "-1 <= x <= 1 (within_error_bound_unit_partial: 4.3e-24) plus the one-sided exp_lower_partial for all x >= 0; for "
+                    "exp outside the unit interval, ln and pow it is NOT proved (WithinErrorBoundFull stays a visible definition) and "
+                    "is sampled against interval enclosures",
                     "find_e's i64 exponents cannot overflow for any value that fits in memory (not modelled)"],
     "explanation": "self-test (pallas worktree, reverted): ipow_ odd branch scaling before the multiply, and mp_ln_n using n % 2 == 0 "
                    "for the curr_a step, must give VIOLATION with a concrete op; inlining div_qr must stay quiet",
